@@ -47,17 +47,17 @@ Proof. vm_compute. split; reflexivity. Qed.
 Theorem C04_tables_ok : utab_ok U0 = true.
 Proof. vm_compute. reflexivity. Qed.
 Theorem C04_invalid_rejected :
-  forall o fc s p v,
+  forall o fc rq s p v,
     o_noalias o = false -> prefix_ok U0 (o_prefix o) = true ->
     supported s = true -> strict fc p s = true ->
-    accepts (gen o fc p s) v = true -> valid_relaxed s v = true.
+    accepts (gen o fc rq p s) v = true -> valid_relaxed s v = true.
 Proof.
-  intros o fc s p v Hno HP. apply reject_invalid; [exact Hno|]. exact (names_total o C04_tables_ok HP).
+  intros o fc rq s p v Hno HP. apply reject_invalid; [exact Hno|]. exact (names_total o C04_tables_ok HP).
 Qed.
 (* outside the strict sub-language the statement is false of the model of the code as it is: the item
    count of an array inside an array is not written in the constrained-type style (known finding) *)
 Theorem C04_nested_counts_refuted :
-  exists s v, supported s = true /\ valid_relaxed s v = false /\ accepts (gen schema_opts false PTop s) v = true.
+  exists s v, supported s = true /\ valid_relaxed s v = false /\ accepts (gen schema_opts false false PTop s) v = true.
 Proof.
   exists (SObj [(of_string "m", (true, SArr (SArr SBool (Some 2%N) None) None None))] false).
   exists (VObj [(of_string "m", VArr [VArr [VBool true]])]).
